@@ -11,7 +11,11 @@ from __future__ import annotations
 import mpmath
 from mpmath import mpf
 
+import numpy
+
+from .. import backends as B
 from .. import catalog as C
+from .. import sweep
 from .. import engine as E
 from .. import gen
 from .. import knownmech
@@ -284,6 +288,40 @@ def run_shard(spec, tier, seed):
                             res.cell("keyword-form", cellkey)
                 except Exception as e:
                     res.count("keyword_form_not_evaluated:" + type(e).__name__)
+                # ---- (d) integer-valued operands held as Python ints / NumPy integer and float32 scalars: same definition
+                try:
+                    il = sweep.int_lvec(self_l)
+                    fobj = op.call(E.mat_obj(il), *aobj)
+                    want = E.canon(op, fobj)
+                    unit_i = E.unit_scale(il, args, True)
+                    for kname, conv in (("int", int), ("numpy.int64", numpy.int64), ("numpy.float32", numpy.float32), ("numpy.float64", numpy.float64)):
+                        res.evaluations += 1
+                        # float32 scalars compute in float32: judged at its precision (with cancellation head-room)
+                        tol_i = mpf(10) ** (-3 if kname == "numpy.float32" else -6)
+                        coords = [conv(int(c)) for c in il.exact_coords()]
+                        vi = B.obj_class(len(il.system) + 1, il.momentum)(**B._coord_objs(il.system, coords))
+                        try:
+                            got_i = E.canon(op, op.call(vi, *aobj))
+                        except Exception as e:
+                            res.violation(f"C02/integer-valued-operand-raises op={op.name} scalar-type={kname}",
+                                          {"cell": cellkey, "exc": f"{type(e).__name__}: {e}"[:200], "coords": [repr(c) for c in coords]})
+                            continue
+                        if op.result == "bool":
+                            same = bool(got_i) == bool(want)
+                        elif op.result == "vec":
+                            same = got_i.system == want.system and all(mpmath.isfinite(c) for c in want.rv.comps()) is not None and \
+                                (not all(mpmath.isfinite(c) for c in want.rv.comps()) or E.rel_error(op, got_i, want.rv, unit_i) <= tol_i)
+                        else:
+                            same = (not mpmath.isfinite(want)) or (op.result == "angle" and R.angdiff(got_i, want) <= tol_i) or \
+                                (op.result != "angle" and E.rel_error(op, got_i, want, unit_i) <= tol_i)
+                        if not same:
+                            res.violation(f"C02/integer-valued-operand-gives-different-result op={op.name} scalar-type={kname}",
+                                          {"cell": cellkey, "coords": [repr(c) for c in coords], "with_floats": _show(want), "got": _show(got_i)})
+                        res.cell("scalar-type:" + kname, cellkey)
+                except R.NotRepresentable:
+                    res.count("skip_integer_operand_not_representable")
+                except Exception as e:
+                    res.count("integer_operand_reference_not_evaluated:" + type(e).__name__)
                 try:
                     gots, _, _ = E.eval_numpy(op, [c[1] for c in cases], [c[2] for c in cases])
                 except Exception as e:
